@@ -1,7 +1,7 @@
 """Generic argument-form / history / layout / scale engine for every public function of teneva.
 
 One TABLE (harness/forms_table.py) describes, per exported callable, a small valid baseline call and the kind of every
-parameter.  Eight metamorphic relations are derived from it mechanically (`f(x') == f(x)` where x' denotes the same
+parameter.  Nine metamorphic relations are derived from it mechanically (`f(x') == f(x)` where x' denotes the same
 mathematical input):
 
   R1 int-forms        int parameters as np.int64 / np.int32 / np.int16, number parameters as np.float64 / int, documented
@@ -17,6 +17,9 @@ mathematical input):
                       dtype's limit, entries with a `big` generator) against int64
   R8 defaults         every defaulted parameter passed explicitly with its documented default (harness/signature_pins.json),
                       on the ordinary baseline and on a default-sensitive baseline (`dflt` generator)
+  R9 shared-objects   the same ndarray object in every position of equal shape of a TT argument ([A] + [G]*(d-2) + [B], [G]*d),
+                      two TT arguments being the same list / sharing their cores, a list of tensors repeating one tensor:
+                      result as on independent copies, arguments untouched
 R4 is also run once per container / dtype form of every vector parameter (ndarray of exactly the target dtype, plain list).
 
 API (see harness/briefs/FORMS.md):
@@ -43,9 +46,9 @@ if __name__ == '__main__' or __package__ in (None, ''):
     sys.path.insert(0, os.path.dirname(os.path.dirname(os.path.abspath(__file__))))
 from harness import common as C  # noqa: E402
 
-RELATIONS = ['R1', 'R2', 'R3', 'R4', 'R5', 'R6', 'R7', 'R8']
+RELATIONS = ['R1', 'R2', 'R3', 'R4', 'R5', 'R6', 'R7', 'R8', 'R9']
 REL_NAME = dict(R1='int-forms', R2='flag-forms', R3='container-forms', R4='history', R5='layouts', R6='scale',
-                R7='integer-dtypes', R8='defaults')
+                R7='integer-dtypes', R8='defaults', R9='shared-objects')
 INT_DTYPES = ['int8', 'uint8', 'int16', 'uint16', 'int32', 'uint32', 'uint64']      # against int64
 TIME_KEYS = {'t'}            # wall-clock entries of info dictionaries
 TOLERATED_FORMS = {'array0', 'i8', 'u8', 'S64'}      # forms outside the documented types: may raise, must not silently differ
@@ -454,6 +457,8 @@ def short(o):
 
 def make_args(tn, E, seed, size, which='gen'):
     from harness import forms_table
+    if which == 'shared':
+        return E.gen(forms_table.G(tn, seed, size, uniform=True))
     g = forms_table.G(tn, seed, size)
     return {'gen': E.gen, 'big': E.big, 'dflt': E.dflt}[which](g)
 
@@ -550,6 +555,67 @@ def _is_intlike(v):
     return isinstance(v, (int, np.integer)) and not isinstance(v, (bool, np.bool_))
 
 
+def _is_core_list(v):
+    return isinstance(v, list) and len(v) > 0 and all(isinstance(G, np.ndarray) and G.ndim >= 2 for G in v)
+
+
+def _shape_groups(Y):
+    groups = {}
+    for k, G in enumerate(Y):
+        groups.setdefault((G.shape, str(G.dtype)), []).append(k)
+    return list(groups.values())
+
+
+def _share(E, args, var, shared):
+    """the arguments of one shared-objects variant: `shared` True = the same ndarray / list object in several positions,
+    False = the same values in independent copies"""
+    kind = var[0]
+    new = dict(args)
+    if kind == 'cores':
+        p, lay = var[1], var[2]
+        Y = [(_relayout(G, lay)) for G in args[p]]
+        for grp in _shape_groups(Y):
+            for k in grp[1:]:
+                Y[k] = Y[grp[0]] if shared else Y[grp[0]].copy(order='K')
+        new[p] = Y
+    elif kind in ('same-list', 'same-cores'):
+        p, q = var[1], var[2]
+        if not shared:
+            new[q] = [G.copy() for G in args[p]]
+        else:
+            new[q] = args[p] if kind == 'same-list' else list(args[p])
+    elif kind == 'same-tensor':
+        p = var[1]
+        first = [Y for Y in args[p] if _is_core_list(Y)][0]
+        shp = [G.shape for G in first]
+        new[p] = [((first if shared else [G.copy() for G in first]) if _is_core_list(Y) and [G.shape for G in Y] == shp else Y)
+                  for Y in args[p]]
+    return new
+
+
+def _shared(tn, E, seed, size, var):
+    a0 = _share(E, make_args(tn, E, seed, size, 'shared'), var, False)
+    base = run(tn, E, a0)
+    if base[0] == 'exc':
+        raise Skip(f'baseline raised {base[1]}: {base[2]}')
+    a1 = _share(E, make_args(tn, E, seed, size, 'shared'), var, True)
+    inpl = E.setof('inplace', a1)
+    s1 = {p: snap(v) for p, v in a1.items()}
+    got = run(tn, E, a1)
+    what = {'cores': 'the same ndarray object in every position of equal shape', 'same-list': 'the very same list object',
+            'same-cores': 'the same core objects in two lists', 'same-tensor': 'the same tensor object repeated'}[var[0]]
+    if got[0] != 'ok':
+        return f'{"/".join(map(str, var[1:]))} with {what}: {short(got)} instead of {short(base)} (independent copies)'
+    try:
+        close(got[1], base[1], E.tol or TOL)
+    except Mismatch as m:
+        return f'{"/".join(map(str, var[1:]))} with {what}: differs from the result on independent copies: {m}'
+    bad = _args_effect(E, s1, a1, inpl)
+    if bad:
+        return f'{"/".join(map(str, var[1:]))} with {what}: argument {bad[0]} modified by the call'
+    return None
+
+
 def _vector_params(E, args):
     """(param, target form) of every shape / index / option-vector parameter: the ndarray of exactly the dtype the function
     converts to (np.asanyarray then hands back the caller's own object) and the plain list"""
@@ -577,6 +643,22 @@ def variants(tn, E, rel, args, deep=False, seed=None, size=None):
     """list of variant descriptors (JSON-able lists) of relation `rel` applicable to the baseline arguments"""
     out = []
     dflt = signature_defaults(tn, E)
+    if rel == 'R9':
+        if seed is None:
+            return []
+        sh = make_args(tn, E, seed, size, 'shared')
+        tts = [p for p, v in sh.items() if E.kind(p) == 'tt' and _is_core_list(v) and (p, 'R9') not in E.novar]
+        for p in tts:
+            if any(len(g_) > 1 for g_ in _shape_groups(sh[p])):
+                out += [['cores', p, 'C'], ['cores', p, 'F']]
+        for i_, p in enumerate(tts):
+            for q in tts[i_ + 1:]:
+                if [G.shape for G in sh[p]] == [G.shape for G in sh[q]]:
+                    out += [['same-list', p, q], ['same-cores', p, q]]
+        for p, v in sh.items():
+            if E.kind(p) == 'tt' and isinstance(v, list) and sum(1 for Y in v if _is_core_list(Y)) >= 2 and (p, 'R9') not in E.novar:
+                out.append(['same-tensor', p])
+        return out
     if rel == 'R7':
         if not E.big or seed is None:
             return []
@@ -771,6 +853,8 @@ def eval_variant(tn, E, seed, size, rel, var):
         return None
     if rel == 'R4':
         return _history(tn, E, seed, size, var, dflt)
+    if rel == 'R9':
+        return _shared(tn, E, seed, size, var)
     if rel == 'R7':
         p, dt = var
         a0 = make_args(tn, E, seed, size, 'big')
@@ -1013,7 +1097,7 @@ def _scaled_callable(f, sh):
 # ----------------------------------------------------------------------------------------------------------------
 # API
 # ----------------------------------------------------------------------------------------------------------------
-QUANTIFIED_OVER_ALL = {'C09': ('R4', 'R2', 'R5'), 'C10': ('R4',)}
+QUANTIFIED_OVER_ALL = {'C09': ('R4', 'R2', 'R5', 'R9'), 'C10': ('R4',)}
 
 
 def plan(pid):
